@@ -251,7 +251,11 @@ class _BaseLayout(MaildirLayout[_MaildirT], metaclass=ABCMeta):
         source_parts = self._split(source_name, delimiter)
         dest_parts = self._split(dest_name, delimiter)
         for parts in list(self._list_folders(source_parts)):
-            self._check_name(dest_parts + parts[len(source_parts):])
+            moved_parts = list(dest_parts) + list(parts[len(source_parts):])
+            self._check_name(moved_parts)
+            if os.path.isdir(self._get_path(moved_parts)):
+                # an inferior of the destination that is in the way
+                raise FileExistsError(self._get_path(moved_parts))
         for i in range(1, len(dest_parts)):
             parts = dest_parts[0:i]
             path = self._get_path(parts)
